@@ -538,7 +538,8 @@ func (c *vconn) wait(deadline time.Duration) {
 	}
 	ok := c.waitFor(deadline, func() bool {
 		if st.served {
-			return true
+			// Serve returned: the reader goroutine still has to hand over what the server wrote last
+			return len(st.rbuf) == st.written
 		}
 		return st.inRead && st.delivered == st.sent && len(st.rbuf) == st.written
 	})
@@ -584,6 +585,7 @@ func (c *vconn) close(deadline time.Duration) {
 	}
 	st.cliClosed = true
 	st.mu.Unlock()
+	c.waitFor(deadline, func() bool { return !st.served || len(st.rbuf) == st.written })
 	c.cli.Close()
 	ok := c.waitFor(deadline, func() bool { return st.served })
 	if !ok {
@@ -761,6 +763,7 @@ func (r *prunner) endConns() {
 			c.wait(r.deadline)
 			c.close(r.deadline)
 		} else if !c.tcp {
+			c.waitFor(r.deadline, func() bool { return len(c.st.rbuf) == c.st.written })
 			c.st.mu.Lock()
 			if c.st.served && !c.st.cliClosed {
 				c.st.srvClosed = true
